@@ -1,4 +1,8 @@
 import H2V.Lemmas.ConnNoPanicPMain
+import H2V.Lemmas.ConnNoPanicPReach
+import H2V.Lemmas.ConnNoPanicPHist
+import H2V.Lemmas.ConnNoPanicPAll
+import H2V.Lemmas.ConnNoPanicPFuel
 /-
   C08 — no peer input (and no use of the documented API) can make an endpoint panic.
   PROPERTY THEOREMS ONLY; proofs in H2V/Lemmas/ConnNoPanicP*.lean, status and the site-by-site
@@ -161,6 +165,148 @@ theorem recv_handles_cannot_panic {s : Streams} (h : NPQ s) {k : Nat} (hk : Live
 
 example : NPQ wS ∧ Live wS 0 ∧ (wS.refPollData 0 "b").1.panicked = none := ⟨wS_npq, wS_live, by decide⟩
 
+-- ===================================================================== all reachable states
+
+/-- **No panic in any reachable state of the stream layer** (partial: the operations listed below; full
+    statement wanted: every operation of `Connection::poll` and of every handle).
+    `Reach s`: `s` is obtained from a blank stream layer (empty store, zero counters, any configuration, either role) by any
+    finite sequence, in any order and with arbitrary arguments, of: the frame entry points `recv_headers`, `recv_data`,
+    `recv_reset`, `recv_window_update`, `Inner::send_reset` (stream errors found by `poll`), `Recv::go_away`; the connection events
+    `handle_error` (connection error), `recv_go_away` (GOAWAY frame), `recv_eof`, `apply_remote_settings`,
+    `apply_local_settings`, `clear_expired_reset_streams`; and the
+    handle calls `send_request`, `poll_ready`, clone/drop of `SendRequest`, clone and drop of a stream handle,
+    `send_response`, `send_informational`, `send_data`, `send_trailers`, `send_reset`, `reserve_capacity`,
+    `poll_capacity`, `poll_reset`, `poll_data`, `poll_trailers`, `poll_informational`, `release_capacity`,
+    `Drop for RecvStream`.  Preconditions of the steps (`Step`): a handle call names a live slab entry (a handle keeps its
+    stream alive: `H2V.Props.C08.referenced_stream_is_never_released`), `drop` needs `ref_count > 0` and no promised
+    streams left on the stream (`dropPPP`), a DATA frame has a legal length, `recv_headers` is not called while a refusal is
+    pending (`Connection::poll` sends it first), `Recv::go_away` is called with an id below `max_stream_id`
+    (`H2V.Props.C15.goaway_invariant_in_every_reachable_state`), and the next stream id is not yet in the id map.
+    Hypothesis `ErrOK s`: fewer than `max_local_error_reset_streams` (default 1024) library-initiated resets so far —
+    inherited from `H2V.Props.C05.slots_are_accounted_per_direction`, needed for the two per-direction asserts of
+    `dec_num_streams`.
+    Conclusion: NONE of the panic sites of the stream layer has fired: no `assert!` of counts.rs (`inc_num_*`,
+    `dec_num_streams`, the reset counters), no `FlowControl::send_data` assert on the receive side, no
+    `send_close: unexpected state`, no `expect("window size should be greater than reserved")`,
+    no `assert!(stream.state.is_closed())`, no "Initiator::User should not error", no `Store::insert` assert, and no
+    dangling `store::Key` (`store.resolve` / `Index<Key>` panics) — whether the key came from a handle, from
+    `find_mut(id)`, or from the `pending_capacity` queue.
+    `recv_eof(true)` (only when the connection is dropped) additionally assumes `AccOK` (`pending_accept` holds live, flagged,
+    pairwise distinct keys).
+    NOT covered yet (see ConnNoPanicPNOTES.md): `poll_complete` (`pop_frame`, `reclaim_frame`), PUSH_PROMISE,
+    `next_incoming`/`take_request`, `poll_response`, `set_target_window_size`. -/
+theorem no_panic_in_any_reachable_state_partial {s : Streams} (h : Reach s) (he : H2V.Lemmas.ConnCountsP.ErrOK s) :
+    s.panicked = none :=
+  (reach_npi h he).np
+
+/-- non-vacuity: request sent, response head and DATA received, DATA sent, stream reset by the user -/
+example : Reach wR5 ∧ H2V.Lemmas.ConnCountsP.ErrOK wR5 ∧ (wR5.stream 0).state.isClosed = true :=
+  ⟨wR5_reach, wR5_facts.1, wR5_facts.2.1⟩
+
+/-- **No panic in any history that respects the handle discipline** (partial in the same sense as the previous
+    theorem: same operations).  `HReach s H`: a history of operations (ConnResetP's `Op`: every call the connection and the
+    handles make on the stream layer, arbitrary arguments, any order) starting from a blank stream layer, where `H` is the
+    multiset of stream handles the application holds: `send_request` adds the key it returns, `clone` adds, `drop`
+    removes, and a handle call is only made through a handle in `H`.  This replaces the hypotheses "the key is live" and
+    "`ref_count > 0`" of the previous theorem by what the API guarantees.  Conclusion: no panic site has fired —
+    in particular `assert!(self.ref_count > 0)` in `drop_stream_ref` and every `store.resolve(key)` behind a handle —
+    and every handle in `H` names a live slab entry whose `ref_count` is at least the number of handles held on it
+    (`HOK`).  Remaining preconditions per operation: `opPre` (see the previous theorem). -/
+theorem no_panic_under_handle_discipline_partial {s : Streams} {H : List Nat} (h : HReach s H)
+    (he : H2V.Lemmas.ConnCountsP.ErrOK s) : s.panicked = none ∧ HOK s H :=
+  ⟨(hreach_npi h he).1.np, (hreach_npi h he).2⟩
+
+/-- non-vacuity: request, response head, DATA in, DATA out, handle cloned, both handles dropped, EOF: everything released -/
+example : HReach (H2V.Lemmas.ConnResetP.run wBlank wOps) [] ∧ H2V.Lemmas.ConnCountsP.ErrOK (H2V.Lemmas.ConnResetP.run wBlank wOps) ∧
+    (H2V.Lemmas.ConnResetP.run wBlank wOps).store.slab.length = 0 :=
+  ⟨wOps_hreach, wOps_facts.1, wOps_facts.2.2⟩
+
+/-- **No panic, 35 operations, fewer preconditions** (partial; supersedes the two theorems above where it applies).
+    `AReach s H`: as `HReach`, starting from the stream layer of a new connection (`Init2`: empty store, both connection
+    windows 65 535), with three more operations (`set_target_window_size`, the server's `push_request`, and
+    `send_request` WITHOUT the precondition "next stream id not in the id map") and with the bounds the frame decoder
+    guarantees as argument preconditions (WINDOW_UPDATE increment and SETTINGS_INITIAL_WINDOW_SIZE ≤ 2^31-1:
+    `H2V.Props.C02.decoder_delivers_31_bit_values`).  Conclusion `Good s H`: no panic site has fired; the handles are
+    accounted (`HOK`); every locally initiated slab entry has an id below `next_stream_id` (`IBS` — this is what makes
+    `assert!(self.ids.insert(id, index).is_none())` of `Store::insert` dead in `send_request` and `push_request`);
+    ConnRecvP's connection-level receive-window invariant (which makes `Window::checked_size`'s "negative Window" assert
+    dead in `set_target_window_size`) and ConnFlowP's send-side `SafeInv` hold. -/
+theorem no_panic_35_operations_partial {s : Streams} {H : List Nat} (h : AReach s H)
+    (he : H2V.Lemmas.ConnCountsP.ErrOK s) : s.panicked = none ∧ Good s H :=
+  ⟨(areach_good h he).npi.np, areach_good h he⟩
+
+/-- non-vacuity: request, response head, DATA both ways, connection window raised, clone, two drops, EOF -/
+example : AReach (H2V.Lemmas.ConnResetP.run wInit wOps2) [] ∧ H2V.Lemmas.ConnCountsP.ErrOK (H2V.Lemmas.ConnResetP.run wInit wOps2) ∧
+    (H2V.Lemmas.ConnResetP.run wInit wOps2).store.slab.length = 0 :=
+  ⟨wOps2_areach, wOps2_facts.1, wOps2_facts.2⟩
+
+/-- **The invariant behind it, in every reachable state**: besides `panicked = none`, (a) `find_mut(id)` hands out
+    only keys that resolve, to an entry with that stream id, and the id map is a map (`IdsOK`); (b) the good-state
+    conditions `NPQ` that the per-function theorems above assume. -/
+theorem id_map_keys_resolve_everywhere {s : Streams} (h : Reach s) (he : H2V.Lemmas.ConnCountsP.ErrOK s) :
+    NPQ s ∧ (∀ id k, s.store.findKey? id = some k → Live s k ∧ (s.stream k).id = id) ∧
+    (s.store.ids.map (·.1)).Nodup :=
+  let n := reach_npi h he
+  ⟨n.npq, fun _ _ hf => n.ids.findKey hf, n.ids.nodup⟩
+
+example : Reach wR5 ∧ wR5.store.findKey? 1 = some 0 := ⟨wR5_reach, by decide⟩
+
+/-- **Every covered operation is panic-free from any state satisfying the invariant** (not only from reachable ones:
+    the invariant `NPI` is inductive).  `he'`: the quota hypothesis on the state after the call. -/
+theorem covered_operations_keep_the_invariant {s s' : Streams} (h : Step s s') (hn : NPI (fun _ => False) s)
+    (he' : H2V.Lemmas.ConnCountsP.ErrOK s') : NPI (fun _ => False) s' ∧ s'.panicked = none :=
+  ⟨h.npi hn he', (h.npi hn he').np⟩
+
+example : NPI (fun _ => False) wBlank ∧ Step wBlank (wBlank.sendRequest false [] false none).1 :=
+  ⟨blank_npi wBlank_blank rfl (fun q => by cases q <;> rfl), .sendRequest _ false [] false none (by intro id h; cases h; rfl)⟩
+
+/-- **The asserts of `Counts::transition_after` / `dec_num_streams` cannot fire** wherever the counting invariants
+    hold (`NPI`, e.g. every reachable state) and the transition is the closing half of `counts.transition`
+    (`b` = "was pending reset expiration before", so `b → reset_at` still set): `num_local_reset_streams > 0`,
+    `stream.is_counted`, `num_send_streams > 0`, `num_recv_streams > 0`; and the result satisfies the invariant
+    again (the released entry is unlinked from the id map before it leaves the slab, so no `find_mut` key dangles). -/
+theorem transition_after_asserts_hold {s : Streams} (hn : NPI (fun _ => False) s) (he : H2V.Lemmas.ConnCountsP.ErrOK s)
+    (k : Nat) (b : Bool) (hb : b = true → (s.stream k).resetAt = true) :
+    (s.transitionAfter k b).panicked = none ∧ NPI (fun _ => False) (s.transitionAfter k b) :=
+  ⟨(transitionAfter_npi hn he k b hb).np, transitionAfter_npi hn he k b hb⟩
+
+example : NPI (fun _ => False) wR5 ∧ H2V.Lemmas.ConnCountsP.ErrOK wR5 ∧ (wR5.stream 0).resetAt = true :=
+  ⟨reach_npi wR5_reach wR5_facts.1, wR5_facts.1, by decide⟩
+
+/-- **`assert!(stream.state.is_closed())` in `Inner::recv_reset` is dead, `StreamRef::send_reset` never takes its
+    `panic!("Initiator::User should not error sending reset")` branch** — both as part of: RST_STREAM from the peer and
+    a reset by the user keep the invariant from any state satisfying it. -/
+theorem resets_keep_the_invariant {s : Streams} (hn : NPI (fun _ => False) s) (he : H2V.Lemmas.ConnCountsP.ErrOK s)
+    (id : Nat) (r : Reason) {k : Nat} (hk : Live s k) :
+    (s.recvReset id r).1.panicked = none ∧ (s.refSendReset k r).panicked = none :=
+  ⟨(recvReset_npi hn id r he).np, (refSendReset_npi hn hk r he).np⟩
+
+example : NPI (fun _ => False) wR4 ∧ Live wR4 0 :=
+  ⟨reach_npi (by
+      have r0 : Reach wBlank := .init wBlank_blank rfl (fun q => by cases q <;> rfl)
+      have r1 : Reach wR1 := .step r0 (.sendRequest _ false [] false none (by intro id h; cases h; rfl))
+      have r2 : Reach wR2 := .step r1 (.recvHeaders _ _ (by decide))
+      have r3 : Reach wR3 := .step r2 (.recvData _ 1 [1, 2, 3] false none (by unfold FrameLenOK; decide))
+      exact .step r3 (.refSendData _ 0 (live_of_isSome (by decide)) 10 false)) (by unfold H2V.Lemmas.ConnCountsP.ErrOK; decide),
+   live_of_isSome (by decide)⟩
+
+/-- **The remaining silent loops terminate** (complements `H2V.Props.C08.clear_queue_loops_terminate`): in the model every
+    loop carries fuel; for `Store::try_for_each` (both variants: `handle_error`, `recv_go_away`, `recv_eof`, the two
+    SETTINGS_INITIAL_WINDOW_SIZE walks) `len - i + 1` units suffice — each round moves the index forward or shortens the
+    range — and for `Recv::send_stream_window_updates` `pending_window_updates.len() + 1`; with that much fuel the result no
+    longer depends on the fuel.  The callers pass `2·len + 1` resp. `len + 1`. -/
+theorem remaining_silent_loops_terminate :
+    (∀ (f : Streams → Nat → Streams × Option PErr) (n m i len : Nat) (s : Streams), len - i < n → len - i < m →
+      Streams.tryForEach f n i len s = Streams.tryForEach f m i len s) ∧
+    (∀ (f : Nat → Streams → Nat → Streams × Nat × Option PErr) (n m i len acc : Nat) (s : Streams), len - i < n → len - i < m →
+      Streams.tryForEachAcc f n i len acc s = Streams.tryForEachAcc f m i len acc s) ∧
+    (∀ (n m : Nat) (s : Streams) (w : Writer), s.recv.pendingWindowUpdates.length < n → s.recv.pendingWindowUpdates.length < m →
+      Streams.sendStreamWindowUpdates n s w = Streams.sendStreamWindowUpdates m s w) :=
+  ⟨tryForEach_fuel, tryForEachAcc_fuel, sendStreamWindowUpdates_fuel⟩
+
+/-- the fuel `Store::try_for_each` passes is on the safe side -/
+example (s : Streams) : s.store.ids.length - 0 < 2 * s.store.ids.length + 1 := storeTryForEach_fuel_enough s
+
 end H2V.Props.C08NoPanic
 
 #print axioms H2V.Props.C08NoPanic.send_data_cannot_panic
@@ -175,3 +321,11 @@ end H2V.Props.C08NoPanic
 #print axioms H2V.Props.C08NoPanic.stream_error_reset_cannot_panic
 #print axioms H2V.Props.C08NoPanic.window_update_cannot_panic
 #print axioms H2V.Props.C08NoPanic.recv_handles_cannot_panic
+#print axioms H2V.Props.C08NoPanic.no_panic_in_any_reachable_state_partial
+#print axioms H2V.Props.C08NoPanic.id_map_keys_resolve_everywhere
+#print axioms H2V.Props.C08NoPanic.covered_operations_keep_the_invariant
+#print axioms H2V.Props.C08NoPanic.transition_after_asserts_hold
+#print axioms H2V.Props.C08NoPanic.resets_keep_the_invariant
+#print axioms H2V.Props.C08NoPanic.no_panic_under_handle_discipline_partial
+#print axioms H2V.Props.C08NoPanic.no_panic_35_operations_partial
+#print axioms H2V.Props.C08NoPanic.remaining_silent_loops_terminate
